@@ -23,7 +23,7 @@ PROPS = {
         units=['expert', 'nodepred'], level='proof',
         replays=['c14_invalid_dep_removed.rs', 'c14_callback_on_new_dependency.rs', 'c14_callback_on_valueless_child.rs'],
         uncovered=[
-            'expert_add_dependency / expert_remove_dependency / expert_swap_children_except_in_kind in node.rs (three nodes\' RefCells at once)',
+            'state_add_parent and the callers of remove_parent in node.rs (multi-node; opaque callees with call-site obligations); expert_swap_children_except_in_kind is under contract in unit `edges` (C11)',
             'double-borrow panics on duplicate children (RefCell borrow flags are erased by rule R5)',
             'that every due change callback is delivered (liveness of on_change calls); only the latches that gate them are under contract',
             'equality of the node value with the reference combinator (C01-level)',
@@ -52,10 +52,11 @@ PROPS = {
             'RefCell borrow panics (erased by R5)',
         ]),
     'C11': dict(
-        units=['observer'], level='other',
+        units=['observer', 'edges'], level='other',
         replays=['c11_handler_count.incrate.rs'],
         uncovered=[
-            'everything except the per-node handler-count clause: symmetric parent/child indices, heights, recompute-heap membership, stats().necessary are relations between different Rc-shared nodes and are not under contract',
+            'only two clauses are under contract: the per-node handler count, and the per-call effect of add_parent / remove_parent / expert_swap_children_except_in_kind on the index arrays of the nodes involved (an edge is recorded, removed or re-slotted symmetrically on both ends); that these calls are made for the right nodes, heights, recompute-heap membership and stats().necessary are relations across the graph and are not under contract (pinned only by a few statement-order frames)',
+            'duplicate parents / duplicate children share one RefCell in the real code; the per-node `&mut` parameters of rule R5p assume distinct nodes',
         ]),
     'C07': dict(
         units=['observer', 'var'], level='other',
@@ -90,12 +91,13 @@ PROPS = {
 # functions of shared units count for a property only if tagged with it (//@ props:), lemmas via LEMMA_PROPS
 LEMMA_PROPS = {
     'symfold': {'*': ['C18']},
-    'heaps': {'lemma_reconfiguring_keeps_every_queued_node_reachable': ['C06', 'C19'], '*': ['C19']},
+    'heaps': {'lemma_reconfiguring_keeps_every_queued_node_reachable': ['C06', 'C19'], 'lemma_insert_keeps_every_queued_node_reachable': ['C06', 'C19'], '*': ['C19']},
     'heightwalk': {'*': ['C19']},
     'expert': {'*': ['C14']},
     'handlers': {'*': ['C09']},
     'observer': {'lemma_handler_count_invariant': ['C11', 'C09'], 'lemma_lifecycle': ['C10'], '*': ['C10']},
     'var': {'*': ['C08']},
+    'edges': {'*': ['C11']},
     'nodepred': {'*': ['C06', 'C05']},   # (no lemmas yet)
 }
 
